@@ -99,6 +99,8 @@ func (aw *AW) c02Check(p *Party, r *CallResult) *Violation {
 			if !found {
 				return rc.Viol("altered.delivered", fmt.Sprintf("%s.Receive returned %s, which the peer never passed to Send", p.Name, short(r.Plain)), map[string]string{"class": cls})
 			}
+		} else if given := sentBy(peer, r.Plain); !given {
+			return rc.Viol("altered.delivered", fmt.Sprintf("%s.Receive returned %s, which is not byte-identical to any text the peer passed to Send (the message carried %s)", p.Name, short(r.Plain), short(info.Text)), map[string]string{"class": cls, "kind": "not-a-sent-text"})
 		} else if !bytes.Equal(r.Plain, info.Text) {
 			return rc.Viol("altered.delivered", fmt.Sprintf("%s.Receive returned %s, the peer's Send was given %s", p.Name, short(r.Plain), short(info.Text)), map[string]string{"class": cls})
 		}
@@ -161,4 +163,14 @@ func c02Run(rc *RunCtx) *Violation {
 	rc.ProbeN("mutations", aw.mutated)
 	rc.ProbeN("replays", aw.replayed)
 	return nil
+}
+
+// sentBy reports whether text is exactly a text party p was given by its user (or its marked resend).
+func sentBy(p *Party, text []byte) bool {
+	for _, t := range p.SentText {
+		if bytes.Equal(t, text) || bytes.Equal(append([]byte("[resent] "), t...), text) {
+			return true
+		}
+	}
+	return false
 }
